@@ -427,7 +427,7 @@ func cmdCheck(args []string) int {
 			r, ok := results[base+i*nativeTries]
 			for k := 0; k < nativeTries; k++ {
 				if rk, okk := results[base+i*nativeTries+k]; okk {
-					if (v.Event.Kind == "violation" && contains(rk.Failed, v.Event.Label)) || (v.Event.Kind == "panic" && strings.HasPrefix(rk.Outcome, "panic:")) {
+					if ((v.Event.Kind == "violation" || v.Event.Kind == "frame") && contains(rk.Failed, v.Event.Label)) || (v.Event.Kind == "panic" && strings.HasPrefix(rk.Outcome, "panic:")) {
 						r, ok = rk, true
 						break
 					}
@@ -452,8 +452,10 @@ func cmdCheck(args []string) int {
 				} else {
 					v.Native = "not-reproduced"
 				}
+			case v.Event.Kind == "frame" && contains(r.Failed, v.Event.Label):
+				v.Native = "reproduced" // the native twin of the frame monitor saw a net change of the frozen value
 			default:
-				v.Native = "engine-only" // monitor events (pool ownership, staleness, frame, race) have no native observable
+				v.Native = "engine-only" // monitor events (pool ownership, staleness, race; frame events without a net change) have no native observable
 			}
 			if ok {
 				v.Event.Inputs = append(v.Event.Inputs, "native: outcome="+r.Outcome+" failed="+strings.Join(r.Failed, ",")+" observed="+strings.Join(r.Observed, ";"))
